@@ -203,112 +203,179 @@ def _reserved(ctx) -> None:
 
 
 # --------------------------------------------------------------------------------------------- d
-def kernel_facts(f: FuncInfo) -> dict:
-    """Facts of one naming kernel, with the roles of its locals found by dataflow (idx = loop position, base = the
-    sanitised name, sep / seen by use) and every text canonicalised over those roles."""
-    facts = {"domain": None, "unnamed": None, "empty": None, "dup": None, "sep": None, "first": None, "seen_scope": None}
-    loops = [s for s in f.body if isinstance(s, ast.For)]
-    for lp in loops:
-        if not any(isinstance(n, ast.Call) and short(n.func) == "_sanitize_user_name" for n in walk_no_nested(lp)):
-            continue
-        facts["domain"] = short(lp.iter)
-        tg = [n.id for n in ast.walk(lp.target) if isinstance(n, ast.Name)]
-        idx = tg[0] if tg else "?"
-        facts["idx"] = idx
-        base = None
-        for s in walk_stmts(lp.body):
-            if isinstance(s, ast.Assign) and isinstance(s.value, ast.Call) and short(s.value.func) == "_sanitize_user_name" \
-                    and isinstance(s.targets[0], ast.Name):
-                base = s.targets[0].id
-        sepv = seen = None
-        for s in walk_stmts(lp.body):
-            if isinstance(s, ast.Assign) and isinstance(s.value, ast.IfExp) and isinstance(s.targets[0], ast.Name) \
-                    and ".endswith('_')" in short(s.value.test).replace('"', "'"):
-                sepv = s.targets[0].id
-                facts["sep"] = cshort(s.value, {base: "BASE"}).replace('"', "'")
-            if isinstance(s, ast.If) and isinstance(s.test, ast.Compare) and len(s.test.ops) == 1 and isinstance(s.test.ops[0], ast.In) \
-                    and short(s.test.left) == base and isinstance(s.test.comparators[0], ast.Name):
-                seen = s.test.comparators[0].id
-        free = {base: "BASE", idx: "IDX"}
-        if sepv:
-            free[sepv] = "SEP"
-        for s in walk_stmts(lp.body):
-            if isinstance(s, ast.Assign) and isinstance(s.value, ast.JoinedStr):
-                v = cshort(s.value, free).replace('"', "'")
-                g = _guards_in(lp, s)
-                if v == "f'col{IDX}_'":
-                    if any("is None" in x and "_name" not in x for x in g):
-                        facts["empty"] = "col{idx}_"
-                    else:
-                        facts["unnamed"] = "col{idx}_"
-                elif "{SEP}" in v or ("BASE" in v and "IDX" in v):
-                    facts["dup"] = v
-        facts["first"] = seen is not None
-        facts["seen_scope"] = "before-loop" if seen and any(isinstance(s, ast.Assign) and short(s.targets[0]) == seen for s in f.body) else "?"
-        break
-    return facts
+SITUATIONS = ("unnamed", "sanitises-to-nothing", "first", "repeat-ending-underscore", "repeat")
+SPEC_KERNEL = {"unnamed": "f'col{IDX}_'", "sanitises-to-nothing": "f'col{IDX}_'", "first": "SAN",
+               "repeat-ending-underscore": "f'{SAN}_{IDX}'", "repeat": "f'{SAN}__{IDX}'"}
 
 
-def _guards_in(loop: ast.For, target: ast.stmt) -> List[str]:
-    out = []
+class Kernel:
+    """The accessor-naming kernel of one function, read off the symx event log: the per-column loop, the sanitised-name term, the
+    `seen` record and the accessor term, evaluated in the five situations a column can be in."""
 
-    def visit(body, acc):
-        for st in body:
-            if st is target:
-                out.extend(acc)
-                return True
-            if isinstance(st, ast.If):
-                if visit(st.body, acc + [short(st.test)]) or visit(st.orelse, acc + ["not " + short(st.test)]):
-                    return True
-        return False
-    visit(loop.body, [])
-    return out
+    def __init__(self, prog, f: FuncInfo, accessor_of):
+        from ..symx import Interp as SInterp
+        from ..symx import NONE as SNONE
+        from ..symx import const, show, simplify, substitute, subterms
+        self.f = f
+        it = self.it = SInterp(prog, f)
+        self.problems: List[str] = []
+        site = accessor_of(it)
+        if site is None:
+            raise AnalysisError(f"{f.qualname}: the per-column accessor name was not found")
+        ev, acc = site
+        self.ev = ev
+        if not ev.loops:
+            raise AnalysisError(f"{f.qualname}: accessor names are not computed in a loop over the columns")
+        L = ev.loops[0]
+        lp = it.loops[L]
+        self.loop = lp
+        self.domain = lp.domain if lp.domain is not None else lp.iter
+        col = ("elem", self.domain, L) if self.domain is not None else None
+        self.col = col
+        name = ("attr", col, "_name")
+        sans = [t for t in subterms(acc) if t[0] == "call" and t[1] == ("name", "_sanitize_user_name")]
+        for c, _ in ev.conds:
+            sans += [t for t in subterms(c) if t[0] == "call" and t[1] == ("name", "_sanitize_user_name")]
+        sans = list(dict.fromkeys(sans))
+        if len(sans) != 1 or sans[0][2] != (name,):
+            self.problems.append(f"the accessor is not derived from exactly one _sanitize_user_name(<the column's own stored name>) "
+                                 f"({[show(x, it)[:40] for x in sans]})")
+            self.forms = {}
+            self.seen = None
+            self.first_recorded = False
+            self.record_conds = None
+            self.seen_fresh = False
+            return
+        san = sans[0]
+        # the `seen` record: the container the sanitised name is tested against
+        seen = None
+        for t in list(subterms(acc)) + [c for c, _ in ev.conds]:
+            for x in subterms(t):
+                if x[0] == "cmp" and x[1] == "In" and x[3][0] == "obj":
+                    lhs = simplify(x[2], {("cmp", "Is", name, SNONE): False, name: True})
+                    if lhs == san:
+                        seen = x[3]
+        self.seen = seen
+        IDX, SAN = ("name", "IDX"), ("name", "SAN")
+        self.forms: Dict[str, str] = {}
+        ends = ("call", ("attr", san, "endswith"), (const("_"),), ())
+        for sit in SITUATIONS:
+            unnamed = sit == "unnamed"
+            atoms = {("cmp", "Is", name, SNONE): unnamed, name: not unnamed}
+            if not unnamed:
+                atoms[("cmp", "Is", san, SNONE)] = sit == "sanitises-to-nothing"
+                atoms[san] = sit != "sanitises-to-nothing"
+                if sit != "sanitises-to-nothing" and seen is not None:
+                    atoms[("cmp", "In", san, seen)] = sit.startswith("repeat")
+                    atoms[ends] = sit == "repeat-ending-underscore"
+            # path feasibility: the accessor event's own conditions must be consistent with the situation
+            t = simplify(acc, atoms)
+            t = substitute(t, {("idx", L): IDX, san: SAN})
+            t = simplify(t, {})
+            self.forms[sit] = show(t, it)
+        # first occurrence is recorded in `seen`
+        self.first_recorded = False
+        self.record_conds = None
+        if seen is not None:
+            for e in it.events:
+                rec = (e.kind == "call" and e.term[1] == ("attr", seen, "add") and len(e.term[2]) == 1) or \
+                      (e.kind == "store" and e.term[0] == "sub" and e.term[1] == seen)
+                if rec and L in e.loops:
+                    k = e.term[2][0] if e.kind == "call" else e.term[2]
+                    k = simplify(k, {("cmp", "Is", name, SNONE): False, name: True, ("cmp", "Is", san, SNONE): False, san: True})
+                    if k == san:
+                        self.first_recorded = True
+                        self.record_conds = e.conds[len(lp.conds):]
+            o = it.objs[seen[1]]
+            self.seen_fresh = not o.loops and not o.init
+        else:
+            self.seen_fresh = False
+
+
+def _map_accessor(it):
+    """column_map[<accessor>] = idx  in Table._build_column_map"""
+    rets = [e for e in it.events if e.kind == "return" and e.depth == 0 and e.term[0] == "obj"]
+    if len(rets) != 1:
+        return None
+    m = rets[0].term
+    stores = [e for e in it.events if e.kind == "store" and e.term[0] == "sub" and e.term[1] == m]
+    if len(stores) != 1:
+        return None
+    return stores[0], stores[0].term[2]
+
+
+def _header_accessor(it):
+    """the sanitised-name list returned (second component) by display._compute_headers"""
+    from ..symx import elements
+    rets = [e for e in it.events if e.kind == "return" and e.depth == 0 and e.term[0] == "tuple" and len(e.term[1]) == 3]
+    if len(rets) != 1 or rets[0].term[1][1][0] != "obj":
+        return None
+    els = elements(it, rets[0].term[1][1])
+    if len(els) != 1:
+        return None
+    e = els[0]
+    v = e.value if e.kind == "elem" else (e.term[2][0] if e.term[2] else None)
+    return (e, v) if v is not None else None
 
 
 def _kernels(ctx) -> None:
+    from ..symx import show, show_conds
     prog = ctx.prog
     m = prog.func("table.Table._build_column_map")
     h = prog.func("display._compute_headers")
-    fm, fh = kernel_facts(m), kernel_facts(h)
-    want_m_domain = "enumerate(self._underlying)"
-    problems = []
-    if fm["domain"] != want_m_domain:
-        problems.append(f"the accessor map is built over `{fm['domain']}`, not over all columns with their own positions")
-    for k, want in (("unnamed", "col{idx}_"), ("empty", "col{idx}_"), ("dup", "f'{BASE}{SEP}_{IDX}'"), ("sep", "'' if BASE.endswith('_') else '_'")):
-        if fm.get(k) != want:
-            problems.append(f"map kernel: {k} form is {fm.get(k)!r}, expected {want!r}")
-    if not fm["first"]:
-        problems.append("map kernel: the first occurrence of a name does not keep the plain base")
-    # every column gets exactly one entry: column_map[sanitized] = idx at loop-body level
-    lp = [s for s in m.body if isinstance(s, ast.For)][0]
-    rets = [x for x in walk_stmts(m.body) if isinstance(x, ast.Return) and isinstance(x.value, ast.Name)]
-    mapv = rets[0].value.id if rets else "column_map"
-    stores = [s for s in lp.body if isinstance(s, ast.Assign) and short(s.targets[0]).startswith(f"{mapv}[")]
-    if len(stores) != 1 or short(stores[0].value) != fm.get("idx"):
+    km = Kernel(prog, m, _map_accessor)
+    kh = Kernel(prog, h, _header_accessor)
+    problems = list(km.problems)
+    S = ("param", m.params[0])
+    itm = km.it
+    if not (km.loop.iter is not None and km.loop.domain == ("attr", S, "_underlying") and km.loop.kind == "for"):
+        problems.append(f"the accessor map is built over `{show(km.loop.iter, itm)[:50]}`, not over all columns with their own positions")
+    for sit in SITUATIONS:
+        if km.forms.get(sit) != SPEC_KERNEL[sit]:
+            problems.append(f"map kernel: a column that is {sit} gets {km.forms.get(sit)!r}, expected {SPEC_KERNEL[sit]!r}")
+    if km.forms and not km.first_recorded:
+        problems.append("map kernel: the first occurrence of a name is not recorded, so repeats are not detected")
+    if km.forms and km.record_conds is not None:
+        extra = [c for c in km.record_conds if not _kernel_atom(km, c)]
+        if extra:
+            problems.append(f"map kernel: a first occurrence is recorded only under `{show_conds(extra, itm)[:60]}`")
+    # every column gets exactly one entry mapped to its own position
+    ev = km.ev
+    if ev.conds[len(km.loop.conds):] or ev.value != ("idx", km.loop.id) or ev.loops != (km.loop.id,):
         problems.append("not every column gets exactly one accessor mapped to its own position")
-    ctx.ob("d.kernels-agree", m, "map-kernel", not problems, f"map kernel facts: {fm}", m.node, message="; ".join(problems))
-    problems = []
-    if fh["domain"] not in ("enumerate(cols)",):
-        problems.append(f"the repr header names are computed over `{fh['domain']}`: repeated names must be detected over ALL columns "
-                        f"(a hidden column may own the plain accessor), with each column's own position")
-    for k in ("unnamed", "empty", "dup", "first"):
-        a, b = fm.get(k), fh.get(k)
-        if a != b:
-            problems.append(f"repr header kernel: {k} form {fh.get(k)!r} differs from the map's {fm.get(k)!r}")
-    sa = fm.get("sep") or ""
-    sb = fh.get("sep") or ""
-    if sa != sb:
-        problems.append(f"repr header kernel: separator rule {fh.get('sep')!r} differs from the map's {fm.get('sep')!r}")
-    # emission only for shown columns, after the name has been computed for every column
-    lp = [s for s in h.body if isinstance(s, ast.For)]
-    if lp:
-        skips = [s for s in lp[0].body if isinstance(s, ast.If) and any(isinstance(b, ast.Continue) for b in s.body)]
-        if skips:
-            pos = lp[0].body.index(skips[0])
-            named = [i for i, s in enumerate(lp[0].body) if "_sanitize_user_name(" in short(s, 2000)]
-            if named and named[0] > pos:
-                problems.append("hidden columns are skipped BEFORE their name is recorded: a shown repeat would be advertised with the plain name")
-    ctx.ob("d.kernels-agree", h, "header-kernel", not problems, f"header kernel facts: {fh}", h.node, message="; ".join(problems))
+    ctx.ob("d.kernels-agree", m, "map-kernel", not problems, f"map kernel: {km.forms}", m.node, message="; ".join(problems))
+    problems = list(kh.problems)
+    ith = kh.it
+    cols_param = ("param", h.params[0])
+    if not (kh.loop.domain == cols_param and kh.loop.kind == "for" and kh.loop.iter is not None and kh.loop.iter[0] == "call"
+            and kh.loop.iter[1] == ("name", "enumerate")):
+        problems.append(f"the repr header names are computed over `{show(kh.loop.iter, ith)[:50]}`: repeated names must be detected over ALL "
+                        f"columns (a hidden column may own the plain accessor), with each column's own position")
+    for sit in SITUATIONS:
+        if kh.forms.get(sit) != km.forms.get(sit):
+            problems.append(f"repr header kernel: a column that is {sit} is advertised as {kh.forms.get(sit)!r}, the accessor map has "
+                            f"{km.forms.get(sit)!r}")
+    if kh.forms and not kh.first_recorded:
+        problems.append("repr header kernel: the first occurrence of a name is not recorded")
+    if kh.record_conds is not None:
+        extra = [c for c in kh.record_conds if not _kernel_atom(kh, c)]
+        if extra:
+            problems.append(f"hidden columns are skipped BEFORE their name is recorded (recorded only under `{show_conds(extra, ith)[:60]}`): "
+                            f"a shown repeat would be advertised with the plain name")
+    if kh.forms and not kh.seen_fresh:
+        problems.append("the record of seen names does not start empty for every call")
+    ctx.ob("d.kernels-agree", h, "header-kernel", not problems, f"header kernel: {kh.forms}", h.node, message="; ".join(problems))
+
+
+def _kernel_atom(k: "Kernel", c) -> bool:
+    """Is condition literal c about the column's own name / its sanitised form / the seen record (a kernel case split)?"""
+    from ..symx import subterms
+    t, _ = c
+    name = ("attr", k.col, "_name")
+    for x in subterms(t):
+        if x == name or (k.seen is not None and x == k.seen):
+            return True
+    return False
 
 
 # --------------------------------------------------------------------------------------------- e
